@@ -7,7 +7,9 @@
 (*     satisfy DecodeIsBijection, SplitPartitions, CellTableMatchesComponents. *)
 (*  "coo":  COOData with <= 6 triplets: toarray / dot / tolocal / fromlocal /  *)
 (*     inverse / __add__ transcriptions against the relational clauses.        *)
-(*  "bmat": block offsets of utils.bmat for 1..5 block columns.                *)
+(*  "bmat": block offsets of utils.bmat for 1..5 block columns (part of the    *)
+(*     main run).  MC_PART = "bmat_old" (MC_C19_bmat_old.cfg) runs the          *)
+(*     pre-repair accumulation as a regression model that TLC must refute.      *)
 EXTENDS Blocks
 
 \* ---- tiny meshes (0-based entity ids), two cells sharing a facet
@@ -90,7 +92,8 @@ vars == <<case, failed>>
 Part == IF "MC_PART" \in DOMAIN IOEnv THEN IOEnv.MC_PART ELSE "main"
 Init ==
   /\ failed = {"pending"}
-  /\ IF Part = "bmat" THEN \E n \in 1..5 : \E cw \in [1..n -> 1..3] : case = [kind |-> "bmat", cw |-> cw] ELSE
+  /\ IF Part = "bmat_old" THEN \E n \in 1..5 : \E cw \in [1..n -> 1..3] : case = [kind |-> "bmat_old", cw |-> cw] ELSE
+     \/ \E n \in 1..5 : \E cw \in [1..n -> 1..3] : case = [kind |-> "bmat", cw |-> cw]
      \/ \E g \in Geo : \E s1, s2 \in Sigs(g) : case = [kind |-> "composite", g |-> g, sigs |-> <<s1, s2>>]
      \/ \E g \in Geo : \E s1, s2, s3 \in Sigs(g) :
            /\ (Quick => NBfun(s1, g[2]) + NBfun(s2, g[2]) + NBfun(s3, g[2]) <= 8)
@@ -106,12 +109,11 @@ ClausesOf(c) ==
     [] c.kind = "vector"    -> VectorClauses(c.g, c.sig, c.dim)
     [] c.kind = "coo"       -> CooClauses(c)
     [] c.kind = "bmat"      -> [BmatBlockOffsets |-> BmatBlockOffsets(c.cw, BmatOffsetsImpl(c.cw))]
+    [] c.kind = "bmat_old"  -> [BmatBlockOffsets |-> BmatBlockOffsets(c.cw, BmatOffsetsOldImpl(c.cw))]
 
 Compute == /\ failed = {"pending"}
            /\ failed' = Failed(ClausesOf(case))
            /\ UNCHANGED case
 Spec == Init /\ [][Compute]_vars
-\* utils.bmat is known to deviate (KF-C19-bmat-blocks); it is explored separately (MC_PART = "bmat", MC_C19_bmat.cfg)
 ClausesHold      == failed \subseteq {"pending"}
-BmatOffsetsHold  == "BmatBlockOffsets" \notin failed
 ==============================================================================
